@@ -118,6 +118,8 @@ def ev(e, env):
         b = ev(e.value, env)
         if isinstance(b, (NS, Rec)) and hasattr(b, e.attr):
             return getattr(b, e.attr)
+        if isinstance(b, tuple) and hasattr(type(b), '_fields') and e.attr in type(b)._fields:
+            return getattr(b, e.attr)       # a namedtuple of the rule
         if b is None or isinstance(b, (NS, int, float, str, tuple, list)):
             raise AttributeError(f'{type(b).__name__!r} object has no attribute {e.attr!r}')    # what the code itself would raise
         raise ModelError(f'minieval: attribute {ast.unparse(e)}')
@@ -234,12 +236,19 @@ def ev(e, env):
         gen(0, env)
         return out
     if isinstance(e, ast.Call) and isinstance(e.func, ast.Name) and e.func.id == 'isinstance' and len(e.args) == 2 and not e.keywords:
-        types_ = {'str': str, 'tuple': tuple, 'list': list, 'int': int, 'float': float, 'dict': dict, 'bool': bool}
+        types_ = {'str': str, 'tuple': tuple, 'list': list, 'int': int, 'float': float, 'dict': dict, 'bool': bool, 'range': range, 'set': set}
         t = e.args[1]
         names = [x.id for x in t.elts] if isinstance(t, ast.Tuple) and all(isinstance(x, ast.Name) for x in t.elts) else ([t.id] if isinstance(t, ast.Name) else None)
-        if names and all(n in types_ for n in names):
-            return isinstance(ev(e.args[0], env), tuple(types_[n] for n in names))
+        if names and all(n in types_ or isinstance(env.get(n), type) for n in names):
+            return isinstance(ev(e.args[0], env), tuple(env[n] if isinstance(env.get(n), type) else types_[n] for n in names))
         raise ModelError(f'minieval: isinstance with {ast.unparse(t)}')
+    if isinstance(e, ast.Call) and isinstance(e.func, ast.Name) and e.func.id == 'hasattr' and len(e.args) == 2 and not e.keywords:
+        o, a = ev(e.args[0], env), ev(e.args[1], env)
+        if isinstance(o, (NS, tuple, str, int, list, dict)) or o is None:
+            return hasattr(o, a)
+        raise ModelError('minieval: hasattr on an unmodelled object')
+    if isinstance(e, ast.Call) and isinstance(e.func, ast.Name) and isinstance(env.get(e.func.id), type) and getattr(env[e.func.id], '_kv_class', False):
+        return env[e.func.id](*[ev(a, env) for a in e.args], **{k.arg: ev(k.value, env) for k in e.keywords if k.arg})      # a class of the rule (stand-in or evaluated)
     if isinstance(e, ast.Call) and isinstance(e.func, ast.Name) and e.func.id == 'defaultdict' and len(e.args) == 1 and isinstance(e.args[0], ast.Name) \
             and e.args[0].id in ('list', 'dict', 'int', 'set') and not e.keywords:
         import collections
@@ -420,6 +429,11 @@ def run(stmts, env):
             continue
         if isinstance(st, ast.Expr) and isinstance(st.value, ast.Call) and isinstance(st.value.func, ast.Name) and st.value.func.id == 'print':
             continue
+        if isinstance(st, ast.Expr) and isinstance(st.value, ast.Call) and isinstance(st.value.func, ast.Name) and (
+                getattr(env.get(st.value.func.id), '_kv_class', False) or getattr(env.get(st.value.func.id), '_kv_stub', False)
+                or isinstance(env.get(st.value.func.id), LocalFn)):
+            ev(st.value, env)       # a constructor / function of the rule, or a local helper, called for its effect on stand-in objects
+            continue
         if isinstance(st, ast.Expr) and isinstance(st.value, ast.Yield):
             if '__yield__' not in env:
                 raise ModelError('minieval: yield outside an evaluated generator function')
@@ -535,3 +549,43 @@ def module_functions(tree, genv):
         if isinstance(st, ast.FunctionDef) and st.name not in genv:
             genv[st.name] = LocalFn(st, genv)
     return genv
+
+
+def make_class(classdef, genv):
+    """A Python class standing for a (data) class of the analysed module: constructing it evaluates the class's own __init__ in Engine M,
+    reading a property or calling a method evaluates that function. Instances are NS objects (identity semantics)."""
+    funcs = {st.name: st for st in classdef.body if isinstance(st, ast.FunctionDef)}
+
+    class K(NS):
+        _kv_class = True
+        _kv_name = classdef.name
+
+        def __init__(self, *args, **kw):
+            super().__init__()
+            if '__init__' in funcs:
+                fd = funcs['__init__']
+                params = [a.arg for a in fd.args.args][1:]
+                pos = list(args)
+                for k, v in kw.items():
+                    if k not in params:
+                        raise TypeError(f'unexpected keyword {k}')
+                vals = {}
+                for p_, v in zip(params, pos):
+                    vals[p_] = v
+                vals.update(kw)
+                call_function(fd, [self] + [vals[p_] for p_ in params if p_ in vals], genv) if len(vals) >= len(params) - len(fd.args.defaults) else (_ for _ in ()).throw(TypeError('missing argument'))
+
+        def __getattr__(self, name):
+            fd = funcs.get(name)
+            if fd is None or name.startswith('__'):
+                raise AttributeError(name)
+            decos = {d.id if isinstance(d, ast.Name) else getattr(d, 'attr', None) for d in fd.decorator_list}
+            if 'property' in decos:
+                return call_function(fd, [self], genv)
+            me = self
+
+            def call(*a):
+                return call_function(fd, ([] if 'staticmethod' in decos else [me]) + list(a), genv)
+            return stub(call)
+    K.__name__ = classdef.name
+    return K
